@@ -213,7 +213,7 @@ class Result(object):
         self.functions = []
 
 
-def explore(ctx, suf, entry, setup, monitor, base_class_of, nul=False, max_states=3000000, extra_sets=(), log=None):
+def explore(ctx, suf, entry, setup, monitor, base_class_of, nul=False, max_states=3000000, extra_sets=(), log=None, workers=1):
     """monitor: object with init(), on_symbol(m, cls, alphabet), on_eof(m), final(m, st, value, machine, result, node)"""
     irp = ctx.irp
     summaries = make_summaries(suf)
@@ -228,13 +228,15 @@ def explore(ctx, suf, entry, setup, monitor, base_class_of, nul=False, max_state
             pre = None
             if mach.cellwatch:
                 mach.optimistic = True
-                pre = _explore_once(mach, entry, setup, NullMonitor(), max_states)
+                pre = (_explore_sharded(mach, entry, setup, NullMonitor(), max_states, workers) if workers > 1
+                       else _explore_once(mach, entry, setup, NullMonitor(), max_states))
                 mach.optimistic = False
                 mach.cellneeds = cell_needs(pre)
                 if log:
                     log('pre-analysis: %d states, %d edges, %d states need cells' % (
                         pre.states, len(pre.edges), sum(1 for v in mach.cellneeds.values() if v)))
-            res = _explore_once(mach, entry, setup, monitor, max_states)
+            res = (_explore_sharded(mach, entry, setup, monitor, max_states, workers) if workers > 1
+                   else _explore_once(mach, entry, setup, monitor, max_states))
             res.pre_states = pre.states if pre else 0
             res.restarts = restarts
             res.alphabet = al
@@ -269,29 +271,35 @@ class NullMonitor(object):
 def cell_needs(pre):
     """backward fixpoint over the pre-analysis graph: which fill-array cells may be read (by interpreted code)
     before being overwritten, per abstract state"""
-    n = pre.states
-    needs = [frozenset()] * n
+    needs = {}
     preds = {}
+    nodes = set()
     for (p, c, gen, kill) in pre.edges:
+        nodes.add(c)
         if p is None:
             continue
+        nodes.add(p)
         preds.setdefault(c, []).append((p, gen, kill))
-    work = list(range(n))
+    work = list(nodes)
     inwork = set(work)
+    empty = frozenset()
     while work:
         c = work.pop()
         inwork.discard(c)
-        nc = needs[c]
+        nc = needs.get(c, empty)
         for (p, gen, kill) in preds.get(c, ()):
             add = gen | (nc - kill)
-            if not add <= needs[p]:
-                needs[p] = needs[p] | add
+            cur = needs.get(p, empty)
+            if not add <= cur:
+                needs[p] = cur | add
                 if p not in inwork:
                     inwork.add(p)
                     work.append(p)
     out = {}
-    for (key, m), nid in pre.seen.items():
-        out[key[:-1]] = needs[nid]
+    for key, nid in pre.seen.items():
+        if isinstance(key, tuple) and len(key) == 2 and isinstance(key[0], tuple) and len(key[0]) == 7:
+            key = key[0][:-1]       # ((canon key incl. kept cells), monitor) -> projected key
+        out[key] = needs.get(nid, empty)
     return out
 
 
@@ -473,4 +481,311 @@ def _explore_once(mach, entry, setup, monitor, max_states):
             raise AnalysisBroken('E1: unknown event %r' % (ev,))
     res.states = len(seen)
     res.seen = seen if mach.optimistic else None
+    return res
+
+
+# ------------------------------------------------------------------ sharded exploration
+
+def _successors(mach, monitor, st, m, ev, stats):
+    """all successors of a stored state: yields (state or maker, m2, ev2, obs2, label, ckey)"""
+    def advance(s2):
+        mach.obs = []
+        stats['runs'] += 1
+        try:
+            e2 = mach.run(s2)
+        except Finding as f:
+            e2 = f
+        return e2, mach.obs
+    ncls = len(mach.al.sets)
+    if ev[0] == 'sym':
+        reps = []
+        for c in range(ncls):
+            m2 = monitor.on_symbol(m, c, mach.al)
+            hit = None
+            for rep in reps:
+                tr = rep[0]
+                if tr is None:
+                    continue
+                try:
+                    if all(mach.qeval(c, q) == o for q, o in tr):
+                        hit = rep
+                        break
+                except (NeedSplit, Imprecise):
+                    continue
+            if hit is not None:
+                stats['shared'] += 1
+                hst, hkey = hit[1], hit[5]
+                if hkey is None:
+                    yield (None, m2, hit[2], hit[3], ('sym', c), None)
+                    continue
+                if hst.win:
+                    nw = (c,) + hst.win[1:]
+                    hkey = hkey[:2] + (nw,) + hkey[3:]
+
+                    def mk(hst=hst, nw=nw):
+                        x = hst.copy()
+                        x.win = nw
+                        return x
+                else:
+                    def mk(hst=hst):
+                        return hst.copy()
+                yield (mk, m2, hit[2], hit[3], ('sym', c), hkey)
+                continue
+            s2 = st.copy()
+            mach.apply_symbol(s2, c)
+            mach.fresh, mach.trace = True, []
+            ev2, obs2 = advance(s2)
+            tr = mach.trace
+            mach.fresh, mach.trace = False, None
+            if any(x is None for x in tr):
+                tr = None
+            ck = None
+            if not isinstance(ev2, Finding):
+                ck = mach.canon(s2)
+            reps.append((tr, s2.copy() if ck is not None else None, ev2, obs2, True, ck))
+            yield (s2, m2, ev2, obs2, ('sym', c), ck)
+        s2 = st.copy()
+        mach.apply_eof(s2)
+        ev2, obs2 = advance(s2)
+        yield (s2, monitor.on_eof(m), ev2, obs2, ('eof',), None)
+    elif ev[0] == 'alloc':
+        for ok in (True, False):
+            s2 = st.copy()
+            mach.apply_alloc(s2, ev[1], ok)
+            ev2, obs2 = advance(s2)
+            yield (s2, m, ev2, obs2, ('alloc', ev[1], ok), None)
+    elif ev[0] == 'choice':
+        for v in ev[1]:
+            s2 = st.copy()
+            mach.apply_choice(s2, v)
+            ev2, obs2 = advance(s2)
+            yield (s2, m, ev2, obs2, ('choice', v), None)
+    elif ev[0] == 'choice-br':
+        for v in ev[1]:
+            s2 = st.copy()
+            mach.apply_branch(s2, v)
+            ev2, obs2 = advance(s2)
+            yield (s2, m, ev2, obs2, ('branch', v), None)
+    else:
+        raise AnalysisBroken('E1: unknown event %r' % (ev,))
+
+
+def _genkill(obs):
+    gen, kill = set(), set()
+    for o in obs:
+        if o[0] == 'cell-read' and o[1:] not in kill:
+            gen.add(o[1:])
+        elif o[0] == 'cell-write':
+            kill.add(o[1:])
+    return frozenset(gen), frozenset(kill)
+
+
+def _shard_worker(wid, n, mach, monitor, inboxes, resultq, sent, recv, idle, stop, max_states):
+    import queue as _q
+    import traceback
+    try:
+        seen = {}
+        parent = {}
+        work = deque()
+        finals, findings, edges = [], [], []
+        obsd = {'reg': {}, 'heap': {}, 'ip4': {}, 'opaque': set(), 'free': set()}
+        stats = {'runs': 0, 'shared': 0, 'transitions': 0, 'max_depth': 0}
+        sent_keys = set()
+        outbox = [[] for _ in range(n)]
+        opt = mach.optimistic
+
+        def record_obs(obs, st):
+            for o in obs:
+                if o[0] == 'reg-store':
+                    obsd['reg'].setdefault((o[1], o[3]), set()).add((o[2], o[4]))
+                elif o[0] == 'heap-store':
+                    if o[2] and o[2][-1] in ('first', 'afterLast'):
+                        obsd['heap'].setdefault((o[2], o[4]), set()).add((o[3], st.eof))
+                elif o[0] == 'ip4-call':
+                    obsd['ip4'].setdefault((o[3], o[2]), set()).add(o[1])
+                elif o[0] == 'opaque-call':
+                    obsd['opaque'].add(o[1])
+                elif o[0] == 'free-members':
+                    obsd['free'].add(o[1])
+
+        def local_add(key, st, m, ev, obs, par, label, gk):
+            k = (key, m)
+            nid = seen.get(k)
+            if nid is None:
+                nid = len(seen) * n + wid
+                seen[k] = nid
+                if callable(st):
+                    st = st()
+                parent[nid] = (par, label) if par is not None else None
+                if len(seen) * n > max_states * 2:
+                    raise AnalysisBroken('E1: more than %d abstract states' % max_states)
+                record_obs(obs, st)
+                if ev[0] == 'final':
+                    finals.append((m, st, ev[1], nid))
+                else:
+                    work.append((st, m, nid, ev))
+                if len(st.frames) > stats['max_depth']:
+                    stats['max_depth'] = len(st.frames)
+            if opt and par is not None:
+                edges.append((par, nid, gk[0], gk[1]))
+
+        def flush(force=False):
+            for j in range(n):
+                if outbox[j] and (force or len(outbox[j]) >= 64):
+                    inboxes[j].put(outbox[j])
+                    with sent.get_lock():
+                        sent[wid] += len(outbox[j])
+                    outbox[j] = []
+
+        def drain(block):
+            got = False
+            while True:
+                try:
+                    batch = inboxes[wid].get(timeout=0.05) if (block and not got) else inboxes[wid].get_nowait()
+                except _q.Empty:
+                    return got
+                got = True
+                for (key, st, m, ev, obs, par, label, gk) in batch:
+                    if st is None:
+                        # edge-only message (state was sent before)
+                        nid = seen.get((key, m))
+                        if nid is not None and opt:
+                            edges.append((par, nid, gk[0], gk[1]))
+                    else:
+                        local_add(key, st, m, ev, obs, par, label, gk)
+                with recv.get_lock():
+                    recv[wid] += len(batch)
+
+        while not stop.is_set():
+            drain(False)
+            if not work:
+                flush(True)
+                idle[wid] = 1
+                if not drain(True):
+                    continue
+                idle[wid] = 0
+                continue
+            idle[wid] = 0
+            st, m, nid, ev = work.popleft()
+            for (s2, m2, ev2, obs2, label, ck) in _successors(mach, monitor, st, m, ev, stats):
+                stats['transitions'] += 1
+                if isinstance(ev2, Finding):
+                    fid = -(len(findings) * n + wid) - 1
+                    parent[fid] = (nid, label)
+                    findings.append((ev2, fid, m2))
+                    continue
+                if ck is None:
+                    ck = mach.canon(s2)
+                gk = _genkill(obs2) if opt else None
+                owner = hash((ck, m2)) % n
+                if owner == wid:
+                    local_add(ck, s2, m2, ev2, obs2, nid, label, gk)
+                else:
+                    dk = (ck, m2)
+                    if dk in sent_keys:
+                        if opt:
+                            outbox[owner].append((ck, None, m2, None, None, nid, label, gk))
+                    else:
+                        sent_keys.add(dk)
+                        if callable(s2):
+                            s2 = s2()
+                        outbox[owner].append((ck, s2, m2, ev2, obs2, nid, label, gk))
+            flush(False)
+        resultq.put(('ok', wid, {'nstates': len(seen), 'parent': parent, 'finals': finals, 'findings': findings, 'edges': edges,
+                                  'obs': obsd, 'stats': stats, 'seen': dict((k[0][:-1], v) for k, v in seen.items()) if opt else None}))
+    except NeedSplit as ns:
+        resultq.put(('needsplit', wid, (ns.cls, list(ns.syms))))
+    except (Imprecise, AnalysisBroken) as e:
+        resultq.put(('error', wid, (type(e).__name__, str(e))))
+    except Exception:
+        resultq.put(('error', wid, ('internal', traceback.format_exc()[-1500:])))
+
+
+def _explore_sharded(mach, entry, setup, monitor, max_states, nworkers):
+    import multiprocessing as mp
+    import queue as _q
+    ctxmp = mp.get_context('fork')
+    n = nworkers
+    st0 = St()
+    setup(mach, st0)
+    m0 = monitor.init(mach.al)
+    mach.fresh, mach.trace = False, None
+    mach.obs = []
+    ev0 = mach.run(st0)
+    obs0 = mach.obs
+    k0 = mach.canon(st0)
+    inboxes = [ctxmp.Queue() for _ in range(n)]
+    resultq = ctxmp.Queue()
+    sent = ctxmp.Array('l', n)
+    recv = ctxmp.Array('l', n)
+    idle = ctxmp.Array('b', n, lock=False)
+    stop = ctxmp.Event()
+    owner = hash((k0, m0)) % n
+    inboxes[owner].put([(k0, st0, m0, ev0, obs0, None, None, (frozenset(), frozenset()))])
+    sent[owner] += 1
+    procs = [ctxmp.Process(target=_shard_worker, args=(i, n, mach, monitor, inboxes, resultq, sent, recv, idle, stop, max_states))
+             for i in range(n)]
+    for p in procs:
+        p.start()
+    pieces = {}
+    err = None
+    quiet = 0
+    while len(pieces) < n and err is None:
+        try:
+            kind, wid, payload = resultq.get(timeout=0.05)
+            if kind == 'ok':
+                pieces[wid] = payload
+            else:
+                err = (kind, payload)
+                stop.set()
+            continue
+        except _q.Empty:
+            pass
+        if not stop.is_set():
+            if all(idle[i] for i in range(n)) and sum(sent[:]) == sum(recv[:]):
+                quiet += 1
+                if quiet >= 3:
+                    stop.set()
+            else:
+                quiet = 0
+        if any(not p.is_alive() for p in procs) and not stop.is_set() and resultq.empty():
+            dead = [i for i, p in enumerate(procs) if not p.is_alive() and i not in pieces]
+            if dead:
+                err = ('error', ('internal', 'worker %s died' % dead))
+                stop.set()
+    for p in procs:
+        p.join(timeout=5)
+        if p.is_alive():
+            p.terminate()
+    if err is not None:
+        kind, payload = err
+        if kind == 'needsplit':
+            raise NeedSplit(payload[0], payload[1])
+        if payload[0] == 'Imprecise':
+            raise Imprecise(payload[1])
+        raise AnalysisBroken('E1 (sharded): %s: %s' % payload)
+    res = Result()
+    res.runs = res.shared = 0
+    res.edges = [] if mach.optimistic else None
+    res.seen = {} if mach.optimistic else None
+    for wid, pc in pieces.items():
+        res.states += pc['nstates']
+        res.parent.update(pc['parent'])
+        res.finals += pc['finals']
+        res.findings += pc['findings']
+        res.runs += pc['stats']['runs']
+        res.shared += pc['stats']['shared']
+        res.transitions += pc['stats']['transitions']
+        res.max_depth = max(res.max_depth, pc['stats']['max_depth'])
+        for k, v in pc['obs']['reg'].items():
+            res.obs_regstores.setdefault(k, set()).update(v)
+        for k, v in pc['obs']['heap'].items():
+            res.obs_heapstores.setdefault(k, set()).update(v)
+        for k, v in pc['obs']['ip4'].items():
+            res.obs_ip4.setdefault(k, set()).update(v)
+        res.obs_opaque |= pc['obs']['opaque']
+        res.obs_free_members |= pc['obs']['free']
+        if mach.optimistic:
+            res.edges += pc['edges']
+            res.seen.update(pc['seen'])
     return res
